@@ -2,7 +2,7 @@
     Statements only; each closed by [exact] of a lemma in Proofs/Loop.v / Proofs/LoopProps.v.
     Model: Model/Loop.v ([bench_loop c init hist]: the sampling loop run on a
     history [hist] = the raw samples each round brought back, one per thread). *)
-From DivanV Require Import Base.Res Generated.Consts Model.Timestamp Model.Loop Proofs.Loop Proofs.LoopProps Proofs.LoopSb Proofs.LoopExamples.
+From DivanV Require Import Base.Res Generated.Consts Model.Timestamp Model.Loop Proofs.Loop Proofs.LoopProps Proofs.LoopSb Proofs.LoopExamples Proofs.LoopMeaning.
 Local Open Scope N_scope.
 
 (** Obligations on the generated constants: the default sample count and the
@@ -118,3 +118,45 @@ Theorem C03_e2e_model : forall c init hist out s t sn,
   c03_e2e_sb (c_count c) s (N.of_nat t) false (o_stat_samples sn) (o_stat_iters sn) (o_calls sn) = true.
 Proof. exact c03_e2e_model. Qed.
 Print Assumptions C03_e2e_model.
+
+(** What the boolean specification [c03_sb] (evaluated on the implementation's
+    output by the violation search; [hist] = the rounds that were run, [t] =
+    threads, [o] = what was seen) means, in arithmetic. *)
+Theorem C03_sb_meaning : forall c t init hist o,
+  c03_sb c t init hist o = true <->
+  (let k := length hist in
+  length (o_calls o) = t /\ length (o_sizes o) = k /\ uniform_p t hist /\
+  if zero_case c then
+    (* nothing runs *)
+    k = 0%nat /\ (forall x, In x (o_calls o) -> x = 0) /\ length (o_samples o) = 0%nat /\
+    o_stat_samples o = 0 /\ o_stat_iters o = 0
+  else if c_test c then
+    (* test mode: one round, one call per thread, nothing stored *)
+    k = 1%nat /\ (forall x, In x (o_calls o) -> x = 1) /\ length (o_samples o) = 0%nat /\
+    o_stat_samples o = 0 /\ o_stat_iters o = 0
+  else
+    let recorded := N.of_nat (length (o_samples o)) in
+    let last_sz := last (o_sizes o) 0 in
+    (* reported figures: samples = recorded, iters = recorded x size, the size
+       being the number of calls each recorded sample took (the last round's) *)
+    o_stat_samples o = recorded /\ o_stat_iters o = recorded * o_final_size o /\
+    o_final_size o = last_sz /\ o_stat_iters o = recorded * last_sz /\
+    match c_size c with
+    | None => True
+    | Some s =>
+        let n := sample_count_of c in
+        let r := ceil_div n (N.of_nat t) in
+        (forall x, In x (o_sizes o) -> x = s) /\
+        (forall x, In x (o_calls o) -> x = s * N.of_nat k) /\
+        recorded = N.of_nat t * N.of_nat k /\
+        o_final_size o = (if (k =? 0)%nat then 0 else s) /\
+        (* no time limit reached before the first min(R, k) rounds => k = R = ceil(n/t)
+           rounds, unless the ceiling stopped the run earlier or the floor prolonged it *)
+        ((forall j, (j < N.to_nat (N.min r (N.of_nat k)))%nat -> elapsed_after c init hist j < c_max c) ->
+         (N.of_nat k < r -> c_max c <= elapsed_after c init hist k) /\
+         (r <= N.of_nat k ->
+          c_min c <= elapsed_after c init hist (N.to_nat r) \/ c_max c <= elapsed_after c init hist (N.to_nat r) ->
+          N.of_nat k = r))
+    end).
+Proof. exact c03_sb_meaning. Qed.
+Print Assumptions C03_sb_meaning.
